@@ -1200,6 +1200,8 @@ func (g *c02Gen) probe(kind int) c02In {
 		in.Items = []c02Node{n, after}
 	case 4: // unknown child of forwarded containing forwarded
 		in.Items = []c02Node{c02El(c02NSClient, "iq", c02El("urn:xmpp:delegation:1", "delegation", c02El("urn:xmpp:forward:0", "forwarded", c02El("u", "x", c02El("urn:xmpp:forward:0", "forwarded"))))).with("id", "1").with("type", "set"), after}
+	case 6: // a history element nested below the MUC history (local name matches in any namespace)
+		in.Items = []c02Node{c02El(c02NSClient, "presence", c02El(c02NSMuc, "x", c02El(c02NSMuc, "history", c02El("u", "y", c02El(c02NSMuc, "history"))).with("maxstanzas", "1"))), after}
 	case 5: // body below an unknown child
 		in.Items = []c02Node{c02El(c02NSClient, "message", c02El(c02NSClient, "body", c02Txt("real")), c02El("u", "x", c02El(c02NSClient, "body", c02Txt("fake")))).with("id", "b"), after}
 	}
@@ -1216,7 +1218,7 @@ func (c02) Gen(r *rand.Rand, tier string) []interface{} {
 	}
 	var out []interface{}
 	out = append(out, c02In{Mode: "stream", Closed: true}, c02In{Mode: "stream"}, c02In{Mode: "stream", Component: true, Closed: true})
-	for k := 0; k < 6; k++ {
+	for k := 0; k < 7; k++ {
 		for rep := 0; rep < 3; rep++ {
 			out = append(out, g.probe(k))
 		}
